@@ -87,7 +87,7 @@ def gen_scenario(seed):
         "container": r.choice(["list", "list", "dict"]),
         "key_kind": r.randrange(4),
         "key_shuffle": r.random() < 0.7,
-        "n_jobs": r.choice([None, None, 1, 2, 2, 3, 4, 5, 8, 13, 16]),
+        "n_jobs": r.choice([None, None, 1, 2, 2, 3, 4, 5, 8, 13, 16, -1]),
         "W_default": r.choice([1, 2, 3, 4, 8, 16]),
         "return_as": r.choice([None, None, "generator", "generator_unordered"]),
         "pbar": r.random() < 0.15,
@@ -98,6 +98,7 @@ def gen_scenario(seed):
         "fault_kind": r.choice(["exception", "worker_death", "worker_death", "memory"]),
         "p_nonzero": r.choice([1.0, 1.0, 0.5, 0.2]),
         "tape_seed": r.getrandbits(48),
+        "as_iterator": r.random() < 0.15,  # jobs handed over as a one-shot generator
     }
     if sc["container"] == "dict":
         sc["return_as"] = None
@@ -125,6 +126,8 @@ def simplify(sc):
         yield dict(sc, exec_shuffle=False)
     if sc["fn_kind"] != "counted":
         yield dict(sc, fn_kind="counted")
+    if sc.get("as_iterator"):
+        yield dict(sc, as_iterator=False)
     if sc["fault_at"] is not None:
         yield dict(sc, fault_at=None)
         if sc.get("fault_kind") != "exception":
@@ -173,7 +176,7 @@ def execute(sc, tape, run_id=0):
         expect_keys = [keys[j] for j in order]
         expect_vals = [tokens[j] for j in order]
     else:
-        jobs_in = jobs
+        jobs_in = (j for j in jobs) if sc.get("as_iterator") else jobs
 
     fault_exc = ex.make_fault(sc.get("fault_kind", "exception"), f"failure in job {sc['fault_at']}")
 
@@ -231,7 +234,7 @@ def execute(sc, tape, run_id=0):
         kwargs["return_as"] = sc["return_as"]
     if sc["pbar"]:
         kwargs["pbar"] = "verif"
-    eff_n_jobs = sc["n_jobs"] if sc["n_jobs"] is not None else sc["W_default"]
+    eff_n_jobs = sc["n_jobs"] if sc["n_jobs"] not in (None, -1) else sc["W_default"]
     old_err = sys.stderr
     sys.stderr = io.StringIO()
     raised = None
@@ -334,7 +337,7 @@ def run_seed(seed, ctx):
     st = dict(sim.stats)
     st.pop("pickled_bytes", None)
     n = sc["n"]
-    eff = sc["n_jobs"] if sc["n_jobs"] is not None else sc["W_default"]
+    eff = sc["n_jobs"] if sc["n_jobs"] not in (None, -1) else sc["W_default"]
     st["seam_entered"] = int(info["entered"])
     st["sequential_path"] = int(not info["entered"])
     st["dict_runs"] = int(sc["container"] == "dict")
@@ -345,6 +348,8 @@ def run_seed(seed, ctx):
     st["reverse_order_runs"] = int(sc["order_mode"] == "reverse" and info["entered"])
     st["pbar_runs"] = int(sc["pbar"])
     st["preamble_calls"] = len(sc.get("preamble") or [])
+    st["iterator_jobs"] = int(bool(sc.get("as_iterator")) and sc["container"] == "list")
+    st["n_jobs_minus_one"] = int(sc["n_jobs"] == -1)
     st["closure_jobs"] = int(sc["fn_kind"] == "closure")
     st["exact_once_checked"] = int(bool(info.get("exact_once")))
     st["dict_key_order_differs"] = int(bool(info.get("dict_key_order_differs")))
